@@ -72,6 +72,7 @@ def judge_file(rec, rf, txns, rows, tmp, rnd, perms=6):
     inserted = specific_tagonly(rnd, gen, 1) if rnd.random() < .6 else gen.rule(tag_only=True)
     ins.insert(rnd.randint(0, len(ins)), inserted)
     eng_ins = {m: O.load_engine(R.render(rf.with_rules(ins)), m) for m in engines}
+    txns = list(txns) + world.field_twins(rnd, txns)
     for txn in txns:
         rec.case()
         case = dict(case0, txns=[O.jtxn(txn)])
@@ -162,41 +163,32 @@ def judge_csv(rec, crules, txns, tmp, rnd):
             rec.interesting(['csv', core.digest(case0), core.digest(O.jtxn(txn))])
 
 
-def judge_parse_generic(rec, rf, rows, tmp, rnd):
+def judge_parse_generic(rec, rf, rows, tmp, rnd, ptxns=None):
     """Tags as they reach the parsed transaction (parse_generic_csv output)."""
-    from tally.format_parser import parse_format_string
-    from tally.parsers import parse_generic_csv
     path = O.write(os.path.join(tmp, 'm.rules'), R.render(rf))
     prules, ptrans = O.production_load(path)
-    spec = parse_format_string('{date:%Y-%m-%d},{description},{memo},{code},{amount}')
-    import csv
-    txns = [t for t in world.pool(rnd, 12) if t.get('date') and t['description'].strip() and t['amount'] != 0]
-    data = os.path.join(tmp, 'd.csv')
-    with open(data, 'w', newline='', encoding='utf-8') as f:
-        w = csv.writer(f)
-        w.writerow(['d', 'desc', 'memo', 'code', 'amt'])
-        for t in txns:
-            w.writerow([t['date'].isoformat(), t['description'], t['field']['memo'], t['field']['code'], repr(float(t['amount']))])
-    try:
-        out = parse_generic_csv(data, spec, prules, source_name='Amex', transforms=ptrans, data_sources=O.copy_rows(rows))
-    except Exception as e:
-        rec.violation('impl-raises:' + type(e).__name__, f'parse_generic_csv: {e}', {'kind': 'rules', 'rf': rf.to_json(), 'rows': rows, 'txns': []})
+    if ptxns is None:
+        ptxns = O.pipeline_txns(world.pool(rnd, 12), rnd)
+    if not ptxns:
         return
-    if len(out) != len(txns):
+    case = {'kind': 'pipeline', 'rf': rf.to_json(), 'rows': rows, 'txns': [O.jtxn(t) for t in ptxns]}
+    try:
+        out = O.pipeline_results(prules, ptrans, ptxns, rows, tmp)
+    except O.ImplError as e:
+        rec.violation('impl-raises:' + type(e.exc).__name__, f'parse_generic_csv: {e}', case)
+        return
+    if len(out) != len(ptxns):
         return  # row-level fidelity is C05's subject
-    for t, o in zip(txns, out):
-        t2 = dict(t, description=t['description'].strip(), source='Amex',
-                  field={'memo': t['field']['memo'].strip(), 'code': t['field']['code'].strip()}, amount=float(t['amount']))
-        from tally.parsers import extract_location
-        t2['location'] = extract_location(t2['description'])
+    for t2, o in zip(ptxns, out):
         try:
             ref = R.ref_match(rf, t2, rows)
         except R.OutOfDomain:
             continue
         rec.count('parse_generic_csv_tag_checks')
-        if set(o['tags']) != ref['tags']:
-            rec.violation('parsed-transaction-tags-differ-from-union', f'{sorted(o["tags"])} vs {sorted(ref["tags"])} for {t2["description"]!r}',
-                          {'kind': 'rules', 'rf': rf.to_json(), 'rows': rows, 'txns': [O.jtxn(t2)]})
+        if o['tags'] != ref['tags']:
+            rec.violation('parsed-transaction-tags-differ-from-union',
+                          f'{sorted(o["tags"])} vs {sorted(ref["tags"])} for {t2["description"]!r} field={t2["field"]}', case)
+            break
 
 
 def tag_heavy(gen, rnd):
@@ -246,6 +238,8 @@ def replay(rec, case):
         txns = [O.untxn(x) for x in case['txns']]
         if case['kind'] == 'csv':
             judge_csv(rec, [R.CsvRule.from_json(r) for r in case['rules']], txns, tmp, None)
+        elif case['kind'] == 'pipeline':
+            judge_parse_generic(rec, R.RuleFile.from_json(case['rf']), case['rows'], tmp, rnd, ptxns=txns)
         elif case['kind'] == 'witness-most-specific':
             witness(rec)
         else:
